@@ -447,6 +447,36 @@ pub fn cmd_replay(engines: &[Arc<dyn Engine>], path: &str, verbose: bool) -> i32
     };
     // a recorded abort can only be reproduced in a child process: the reproduction is its death
     let is_abort = rf.violation.as_ref().map(|v| v.code.ends_with(".abort")).unwrap_or(false);
+    let is_hang = rf.violation.as_ref().map(|v| v.code.ends_with(".hang")).unwrap_or(false);
+    if is_hang && std::env::var("VERIF_REPLAY_INPROC").is_err() {
+        let exe = std::env::current_exe().expect("own path");
+        let Ok(mut child) = std::process::Command::new(exe).arg("replay").arg(path).env("VERIF_REPLAY_INPROC", "1").stdout(std::process::Stdio::null()).stderr(std::process::Stdio::null()).spawn() else {
+            eprintln!("harness error: cannot start the replay child");
+            return 2;
+        };
+        let limit = std::time::Duration::from_secs(crate::abort::hang_s());
+        let t0 = Instant::now();
+        loop {
+            match child.try_wait() {
+                Ok(Some(_)) => {
+                    println!("recorded hang does not reproduce on this tree (the replay ended after {:.1} s)", t0.elapsed().as_secs_f64());
+                    return 0;
+                }
+                Ok(None) if t0.elapsed() > limit => {
+                    let _ = child.kill();
+                    let _ = child.wait();
+                    println!("violation {}: the replay process did not finish the recorded commands within {} s of wall-clock time", rf.violation.as_ref().unwrap().code, limit.as_secs());
+                    println!("VIOLATION property={} replay={}", rf.property, path);
+                    return 1;
+                }
+                Ok(None) => std::thread::sleep(std::time::Duration::from_millis(200)),
+                Err(e) => {
+                    eprintln!("harness error: {e}");
+                    return 2;
+                }
+            }
+        }
+    }
     if is_abort && std::env::var("VERIF_REPLAY_INPROC").is_err() {
         let exe = std::env::current_exe().expect("own path");
         let st = std::process::Command::new(exe).arg("replay").arg(path).env("VERIF_REPLAY_INPROC", "1").stdout(std::process::Stdio::null()).stderr(std::process::Stdio::null()).status();
@@ -521,7 +551,7 @@ pub fn cmd_isolate(engine: &Arc<dyn Engine>, prop: &str, seed: u64, idx: u64, te
 }
 
 /// `sim abortreplay`: turns the tee of an aborted run into a replay file (nothing is executed).
-pub fn cmd_abortreplay(engine: &Arc<dyn Engine>, prop: &str, seed: u64, idx: u64, tee: &str, out: &str) -> i32 {
+pub fn cmd_abortreplay(engine: &Arc<dyn Engine>, prop: &str, seed: u64, idx: u64, tee: &str, out: &str, kind: &str) -> i32 {
     let Ok(txt) = std::fs::read_to_string(tee) else {
         eprintln!("harness error: cannot read {tee}");
         return 2;
@@ -545,9 +575,13 @@ pub fn cmd_abortreplay(engine: &Arc<dyn Engine>, prop: &str, seed: u64, idx: u64
         config: head["config"].clone(),
         violation: Some(Violation {
             property: prop.to_string(),
-            code: format!("{prop}.abort"),
+            code: format!("{prop}.{kind}"),
             step: commands.len(),
-            detail: "the process was killed (allocation failure, stack overflow or a panic while panicking) inside the code under test while executing these commands".into(),
+            detail: if kind == "hang" {
+                "the run did not return: the code under test loops or waits forever while executing these commands".into()
+            } else {
+                "the process was killed (allocation failure, stack overflow or a panic while panicking) inside the code under test while executing these commands".into()
+            },
             finding: String::new(),
         }),
         trace: String::new(),
